@@ -44,6 +44,7 @@ def lat_int(v, scale, problems, what):
 
 
 def gen_requests(g, rng, n):
+    ONE_TILE.clear()
     bx0, by0, bx1, by1 = g['bbox']
     reqs = []
     ladder = sorted(set(list(g['res']) + [r * 5 // 4 for r in g['res']] + [25, 30, 50, 64, 100, 13, g['res'][0] * 3, g['res'][0] * 5, 7]))
@@ -63,6 +64,19 @@ def gen_requests(g, rng, n):
             x0 = bx0 - rng.choice([0, 40, 400, 4000])
             y0 = by0 - rng.choice([0, 40, 400, 4000])
         reqs.append([x0, y0, x0 + w * r, y0 + h * r, w, h])
+    # the part of every border tile (top row / right column / bottom row for ul) that lies inside the extent, at the
+    # level's own resolution: a contained request, so the tight tolerance applies where buffers were cut
+    for l, r in enumerate(g['res']):
+        gx, gy = grid_size(g, l)
+        border = {(x, y, l) for x in range(gx) for y in (0, gy - 1)} | {(x, y, l) for y in range(gy) for x in (0, gx - 1)}
+        for t in sorted(border)[:40]:
+            tb = tile_bbox(g, t)
+            x0, y0, x1, y1 = max(tb[0], bx0), max(tb[1], by0), min(tb[2], bx1), min(tb[3], by1)
+            w, h = (x1 - x0) // r, (y1 - y0) // r
+            if w >= 1 and h >= 1:
+                reqs.append([x0, y0, x0 + w * r, y0 + h * r, w, h])
+                if reqs[-1] == tb + [g['tw'], g['th']]:
+                    ONE_TILE[tuple(reqs[-1])] = t
     # every tile of (a sample of) each level exactly
     for l in range(len(g['res'])):
         gx, gy = grid_size(g, l)
@@ -70,7 +84,18 @@ def gen_requests(g, rng, n):
         rng.shuffle(ts)
         for t in ts[:6]:
             reqs.append(tile_bbox(g, t) + [g['tw'], g['th']])
+            ONE_TILE[tuple(reqs[-1])] = t
     return reqs
+
+
+def sliver(g, q):
+    bx0, by0, bx1, by1 = g['bbox']
+    ow = min(q[2], bx1) - max(q[0], bx0)
+    oh = min(q[3], by1) - max(q[1], by0)
+    return ow <= 2 * max(g['res']) // 10 or oh <= 2 * max(g['res']) // 10
+
+
+ONE_TILE = {}
 
 
 def map_url(q, scale, version, srs, latlon):
@@ -87,6 +112,11 @@ def observe_maps(app, g, reqs, variants, rng, problems):
         version, srs, latlon = rng.choice(variants)
         n0 = len(app.log)
         r = app.get(map_url(q, app.scale, version, srs, latlon))
+        if r.status_int == 500 and 'Invalid BBOX' in r.text and sliver(g, q):
+            # the request overlaps the grid by less than 2/10 pixel of some level: get_affected_level_tiles insets it to
+            # nothing and the request is refused ("Invalid BBOX") instead of answered blank - no picture, so C01 has
+            # nothing to say about it (recorded as an observation in DESIGN.md)
+            continue
         if r.status_int != 200 or not r.content_type.startswith('image/'):
             problems.append(('map-request-failed', 'GetMap %s (%s %s) answered %s: %s' % (q, version, srs, r.status, r.text[:200])))
             continue
@@ -107,7 +137,14 @@ def observe_maps(app, g, reqs, variants, rng, problems):
         for u in app.log[n0:]:
             bb = [lat_int(v, app.scale, problems and [], 'upstream bbox') for v in u['BBOX'].split(',')]
             up.append(bb + [int(u['WIDTH']), int(u['HEIGHT'])])
-        maps.append({'q': q, 'px': px, 'up': up, 'variant': [version, srs]})
+        onetile = 'n/a'
+        t = ONE_TILE.get(tuple(q))
+        if t is not None:
+            code = srs.replace(':', '')
+            rt = app.get('/tiles/lay/%s/%d/%d/%d.png' % (app.tile_code, t[2], t[0], t[1]))
+            if rt.status_int == 200:
+                onetile = 'same' if list(app.image(rt).convert('RGBA').getdata()) == list(img.convert('RGBA').getdata()) else 'differs'
+        maps.append({'q': q, 'px': px, 'up': up, 'variant': [version, srs], 'onetile': onetile})
     return maps
 
 
@@ -167,6 +204,8 @@ def observe_wmts_infos(app, g, rng, n, problems):
         n0 = len(app.info_log)
         r = app.get(base + '&REQUEST=GetFeatureInfo&INFOFORMAT=text/plain&I=%d&J=%d' % (ci, cj))
         new = app.info_log[n0:]
+        if r.status_int == 200 and len(new) == 0:
+            continue          # the source was not asked (tile pixel outside its coverage)
         if r.status_int != 200 or len(new) != 1:
             problems.append(('info-request-failed', 'WMTS GetFeatureInfo %s/%s/%s answered %s with %d upstream requests' % (l, col, row, r.status, len(new))))
             continue
@@ -215,9 +254,10 @@ def run(ctx):
         srs = kw.get('srs', 'EPSG:3857')
         wms_srs = sorted({v[1] for v in variants} | {srs})
         problems = []
-        services = {'wms': {'srs': wms_srs, 'md': {'title': 't'}},
+        services = {'wms': {'srs': wms_srs, 'md': {'title': 't'}}, 'tms': {},
                     'wmts': {'kvp': True, 'restful': True, 'featureinfo_formats': [{'mimetype': 'text/plain', 'suffix': 'txt'}]}}
         app = L.LatticeApp(g, featureinfo=True, services=services, wms_srs=wms_srs, **kw)
+        app.tile_code = srs.replace(':', '')
         try:
             reqs = gen_requests(g, ctx.rng, nmap)
             maps = observe_maps(app, g, reqs, variants, ctx.rng, problems)
@@ -246,8 +286,8 @@ def run(ctx):
         if v['map']:
             c = maps[v['map'] - 1]
             ctx.violation({'kind': 'map-provenance', 'config': name},
-                          '%s: %d of %d map requests violate C01; e.g. request %s (%s): decoded pixels [level, cell x, cell y] %s, upstream %s' % (
-                              name, v['nmap'], len(maps), c['q'], c['variant'], c['px'][:12], c['up'][:3]), {'grid': g, 'case': c})
+                          '%s: %d of %d map requests violate C01; e.g. request %s (%s): clauses [size ok, one tile, contained, one-tile cmp, NoTiles, #upstream] = %s; offending pixels (index, [level, cell x, cell y]) %s, upstream %s' % (
+                              name, v['nmap'], len(maps), c['q'], c['variant'], list(v['why']), [(k - 1, c['px'][k - 1]) for k in sorted(v['badpx'])][:8], c['up'][:3]), {'grid': g, 'case': c})
         if v['info']:
             c = infos[v['info'] - 1]
             ctx.violation({'kind': 'featureinfo-position', 'service': c['kind']},
